@@ -7,28 +7,44 @@ From AhrsProps Require Import C13_lib.
 Import ListNotations.
 Open Scope R_scope.
 
-(* a leaf [a/n; b/n; c/n; d/n] ++ P, n = ||(a,b,c,d)||: the quaternion is unit unless (a,b,c,d) itself is zero *)
-Definition norm_leaf (P : list R) (o : outcome R) : Prop :=
+Definition P_fkf0 : list R := [1/100;0;0;0; 0;1/100;0;0; 0;0;1/100;0; 0;0;0;1/100].
+(* rewrite the (at most two levels of) defining equations a normalised leaf needs: p_i = a_i / n, n = sqrt(...) *)
+Ltac leaf_norm :=
+  simpl; split; [reflexivity|];
+  repeat match goal with
+  | H : ?t = _ / _ |- context [sq4 ?a ?b ?c ?d] =>
+      first [ constr_eq t a | constr_eq t b | constr_eq t c | constr_eq t d ]; rewrite H; clear H
+  end;
+  match goal with
+  | H : ?n = sqrt _ |- context [_ / ?n] => rewrite H
+  end;
+  apply unit_or_zero.
+
+(* FKF(gyr, acc, mag).Q[1] with acc[1] = 0 : the gyro-propagated, re-normalised initial quaternion; the covariance Pk
+   keeps its initial value (no NaN can enter the carried state); never an exception other than ValueError *)
+Lemma fkf_a0 h0 h1 h2 g0 g1 g2 a0 a1 a2 n0 n1 n2 m0 m1 m2 :
+  norm_leaf P_fkf0 (C13_fkf_a0_R h0 h1 h2 g0 g1 g2 a0 a1 a2 n0 n1 n2 m0 m1 m2).
+Proof. cbv beta delta [C13_fkf_a0_R]. walk; leaf_norm. Qed.
+
+(* Complementary(gyr, acc, w0=..).W[1], .Q[1] with acc[1] = 0 : the angles are integrated with the gyroscopes only
+   (no blend with the 0/0 tilt) and the quaternion built from them is unit *)
+Definition comp_leaf (e0 e1 : R) (o : outcome R) : Prop :=
   match o with
-  | Val (p0 :: p1 :: p2 :: p3 :: tl) => tl = P /\ (sq4 p0 p1 p2 p3 = 1 \/ (p0 = 0 /\ p1 = 0 /\ p2 = 0 /\ p3 = 0))
+  | Val [u0; u1; u2; p0; p1; p2; p3] => u0 = e0 /\ u1 = e1 /\ u2 = 0 /\ sq4 p0 p1 p2 p3 = 1
   | Val _ => False
   | Raise e => e = ValueError
   end.
-Lemma unit_or_zero a b c d :
-  let n := sqrt (a*a + b*b + c*c + d*d) in
-  sq4 (a/n) (b/n) (c/n) (d/n) = 1 \/ (a/n = 0 /\ b/n = 0 /\ c/n = 0 /\ d/n = 0).
+Lemma comp_imu_a0 r0 p0 y0 h0 h1 h2 g0 g1 g2 a0 a1 a2 :
+  comp_leaf (r0 + g0 * (1/100)) (p0 + g1 * (1/100)) (C13_comp_imu_a0_R r0 p0 y0 h0 h1 h2 g0 g1 g2 a0 a1 a2).
 Proof.
-  intros n. destruct (Req_EM_T (a*a + b*b + c*c + d*d) 0) as [E|E].
-  - right. assert (a*a = 0 /\ b*b = 0 /\ c*c = 0 /\ d*d = 0) as (A & B & C & D) by (repeat split; nra).
-    apply Rsqr_0_uniq in A, B, C, D. subst. unfold Rdiv. repeat split; ring.
-  - left. apply (normalised_unit a b c d). exact E.
+  unfold C13_comp_imu_a0_R. cbv zeta.
+  destr_dec; simpl; (split; [reflexivity|]; split; [reflexivity|]; split; [reflexivity|]);
+  set (cp := cos (1 / 2 * (p0 + g1 * (1 / 100)))); set (sp := sin (1 / 2 * (p0 + g1 * (1 / 100))));
+  set (cr := cos (1 / 2 * (r0 + g0 * (1 / 100)))); set (sr := sin (1 / 2 * (r0 + g0 * (1 / 100))));
+  assert (H1 : sp * sp + cp * cp = 1) by (unfold sp, cp; pose proof (sin2_cos2 (1 / 2 * (p0 + g1 * (1 / 100)))) as H; unfold Rsqr in H; exact H);
+  assert (H2 : sr * sr + cr * cr = 1) by (unfold sr, cr; pose proof (sin2_cos2 (1 / 2 * (r0 + g0 * (1 / 100)))) as H; unfold Rsqr in H; exact H);
+  (replace (cp * cr * (cp * cr) + cp * sr * (cp * sr) + sp * cr * (sp * cr) + - (sp * sr) * - (sp * sr)) with 1
+     by (transitivity ((sp * sp + cp * cp) * (sr * sr + cr * cr)); [rewrite H1, H2; ring|ring]));
+  rewrite sqrt_1; unfold sq4; rewrite !div_one;
+  (transitivity ((sp * sp + cp * cp) * (sr * sr + cr * cr)); [ring|rewrite H1, H2; ring]).
 Qed.
-Definition P_fkf0 : list R := [1/100;0;0;0; 0;1/100;0;0; 0;0;1/100;0; 0;0;0;1/100].
-
-(* FKF(gyr, acc, mag).Q[1] with acc[1] = 0 : the gyro-propagated, re-normalised initial quaternion; the covariance Pk
-   keeps its initial value (no NaN can enter the carried state) *)
-Lemma fkf_a0 h0 h1 h2 g0 g1 g2 a0 a1 a2 n0 n1 n2 m0 m1 m2 :
-  norm_leaf P_fkf0 (C13_fkf_a0_R h0 h1 h2 g0 g1 g2 a0 a1 a2 n0 n1 n2 m0 m1 m2).
-Proof.
-  Time unfold C13_fkf_a0_R. Time repeat destr_dec. all: Time (simpl; split; [reflexivity|apply unit_or_zero]).
-Time Qed.
